@@ -110,7 +110,7 @@ impl Assignment {
         let name = self.idents[0].name();
 
         if self.flags().contains(AssignmentFlag::modify()) {
-            let (ident, _) = user_data
+            user_data
                 .get_dependency_flags_from_name_skip_n(name, skip)
                 .context(
                     "attempting to look up a variable that does not exist in any parent scope",
@@ -119,15 +119,17 @@ impl Assignment {
             // `modify` writes through a capture: the name has to be visible from outside this
             // function.  A variable that only lives in an enclosing block of the same function
             // (or of the module) has no capture behind it and the interpreter fails on the store.
-            let is_capture = (skip..)
+            // The variable written is the captured one, so it decides whether the write is legal,
+            // not a local of this function that happens to have the same name.
+            let captured = (skip..)
                 .map_while(|n| user_data.get_dependency_flags_from_name_skip_n(name, n))
-                .any(|(_, crosses_function)| crosses_function);
+                .find(|(_, crosses_function)| *crosses_function);
 
-            if !is_capture {
+            let Some((captured, _)) = captured else {
                 bail!("`{name}` belongs to this function and is not a variable capture; a plain assignment updates it")
-            }
+            };
 
-            return Ok(!ident.is_const());
+            return Ok(!captured.is_const());
         }
 
         let has_been_declared = user_data.get_ident_from_name_local(name);
